@@ -38,8 +38,8 @@ def month_of(v):
     if not isinstance(v, str):
         return 0
     if v.isascii() and v.isdigit():
-        if len(v) > 50:
-            return 0
+        if len(v) > 4300:
+            return None  # beyond what int() converts: only "does not raise" is asserted
         iv = int(v)
         return iv if 1 <= iv <= 12 else 0
     if v.isdigit() or (v and all(ch.isdigit() or ch.isdecimal() or ch.isnumeric() for ch in v)):
@@ -83,16 +83,24 @@ def o_apply(inp):
     key = inp.get("key", "month")
     entry = _mk_entry(value, key)
     other = Entry("book", "k2", [Field("title", "{No month}", 7)], start_line=6, raw="@book{k2,...}")
-    lib = Library([entry, other])
+    blocks = [entry, other]
+    if inp.get("macro") and isinstance(value, str) and value:
+        # a @string whose key is (a case variant of) the month spelling stands in the library - the month middlewares
+        # look at the value the field holds now, whatever macros the library defines
+        from bibtexparser.model import String
+
+        mk = {"same": value, "upper": value.upper(), "lower": value.lower()}[inp["macro"]]
+        blocks = [String(mk, '"macro text"', 20, "@string{...}"), entry, other, String("feb", '"F"', 21, "@string{feb}")]
+    lib = Library(blocks)
     other_canon = canon(other)
     entry_canon_nometa = canon(entry, ignore=("_parser_metadata",))
     field_obj = entry.fields[1]
     cur = lib
     for kind in inp["mws"]:
         cur = libgen.maybe_preuse(MW[kind](allow_inplace_modification=inp["inplace"]), (inp["v"], inp["mws"]), same=cur).transform(cur)
-    if not isinstance(cur, Library) or len(cur.blocks) != 2:
-        return (("shape", f"{type(cur).__name__} with {len(getattr(cur, 'blocks', []))} blocks", "library of 2 blocks"), True, ())
-    out_entry, out_other = cur.blocks
+    if not isinstance(cur, Library) or len(cur.blocks) != len(blocks):
+        return (("shape", f"{type(cur).__name__} with {len(getattr(cur, 'blocks', []))} blocks", f"library of {len(blocks)} blocks"), True, ())
+    out_entry, out_other = [b for b in cur.blocks if isinstance(b, Entry)][:2] if len(blocks) > 2 else cur.blocks
     if not isinstance(out_entry, Entry):
         return (("entry-replaced", type(out_entry).__name__, "Entry"), True, ())
     keys = [f.key for f in out_entry.fields]
@@ -102,7 +110,7 @@ def o_apply(inp):
     got = fld.value
     m = month_of(value) if key == "month" else 0
     classes = ["months" if m else ("unspecified" if m is None else "non-month"), "mws%d" % min(len(inp["mws"]), 3),
-               "inplace" if inp["inplace"] else "copy"]
+               "inplace" if inp["inplace"] else "copy"] + (["same-named-macro-in-library"] if len(blocks) > 2 else [])
     # the rest of the library is untouched
     if canon(out_other) != other_canon:
         return (("other-entry-changed", repr(canon(out_other)), repr(other_canon)), True, classes)
@@ -142,7 +150,7 @@ def month_spellings():
     out = []
     for m in range(1, 13):
         seen = set()
-        cand = [m] + ["0" * z + str(m) for z in range(4)]
+        cand = [m] + ["0" * z + str(m) for z in (0, 1, 2, 3, 8, 9, 10, 17, 63, 64, 255)]
         cand += list(case_variants(ABBR[m - 1])) + list(case_variants(FULL[m - 1]))
         for c in cand:
             k = (type(c).__name__, c)
@@ -177,6 +185,10 @@ def w_exhaustive(acc, lo, hi):
         for mws in TRIPLES:
             # chains of three (e.g. Long, Int, Long): the entry already carries the first middleware's metadata
             cases.append({"v": v, "mws": list(mws), "inplace": (k + len(mws[0])) % 2 == 0})
+        if isinstance(v, str):
+            for mws in PAIRS[:3]:
+                for macro in ("same", "upper", "lower"):
+                    cases.append({"v": v, "mws": list(mws), "inplace": (k + len(macro)) % 2 == 0, "macro": macro})
     harness.run_cases(acc, "apply", o_apply, cases, distinct_by_construction=True)
 
 
@@ -208,7 +220,7 @@ def w_random(acc, n, seed):
         st.integers(-20, 40),
         st.integers(),
     )
-    strat = st.fixed_dictionaries({"v": texts, "mws": st.sampled_from(PAIRS + TRIPLES).map(list), "inplace": st.booleans()})
+    strat = st.fixed_dictionaries({"v": texts, "mws": st.sampled_from(PAIRS + TRIPLES).map(list), "inplace": st.booleans(), "macro": st.sampled_from([None, None, None, "same", "upper", "lower"])})
     harness.run_hyp(acc, "apply", o_apply, strat, n, seed)
 
 
@@ -235,7 +247,7 @@ def run(chk):
         "and composition clauses) or an int / digit string / enclosed or prefixed look-alike (unchanged clause); "
         "distinct by (value, middlewares, mode)."
     )
-    chk.required_classes = ["months", "non-month", "mws2", "copy"]
+    chk.required_classes = ["months", "non-month", "mws2", "copy", "same-named-macro-in-library"]
     chk.assumptions = [
         "strings of non-ASCII digit characters (e.g. fullwidth or superscript digits) and bools are only required not to raise: the statement does not say whether they spell a month",
     ]
